@@ -7,6 +7,7 @@ import (
 	"errors"
 	"fmt"
 	"net"
+	"os"
 	"regexp"
 	"sort"
 	"strconv"
@@ -170,8 +171,8 @@ type MyWorld struct {
 	decoys     map[string]bool    // hosts that exist on the network but are not part of the cluster
 	DecoyDials []string
 	// hooks, called with the world lock held
-	OnStatement func(w *MyWorld, s *Stmt, h *MyHost)              // before the effect of a recognised statement
-	AfterStmt   func(w *MyWorld, s *Stmt, h *MyHost)              // after its effect
+	OnStatement func(w *MyWorld, s *Stmt, h *MyHost)               // before the effect of a recognised statement
+	AfterStmt   func(w *MyWorld, s *Stmt, h *MyHost)               // after its effect
 	OnCall      func(issuer, target, class string, seq int) string // "" or "crash": the issuing process dies at this call
 }
 
@@ -425,6 +426,9 @@ func (w *MyWorld) Dial(ctx context.Context, issuer, target string) (net.Conn, er
 	}
 	if !up {
 		w.mu.Unlock()
+		// a refusal takes a round trip: without it a retry loop that does not sleep on
+		// errors (performChangeMaster's wait loop) would spin forever at one virtual instant
+		time.Sleep(20 * time.Millisecond)
 		return nil, fmt.Errorf("dial tcp %s:3306: connect: connection refused", target)
 	}
 	cl, sv := net.Pipe()
@@ -741,6 +745,13 @@ func (w *MyWorld) ClientWrite(host string, size int64) *WriteRec {
 
 // ---------------------------------------------------------------- statements
 
+var dropLatency = func() time.Duration {
+	if os.Getenv("VERIF_NOLAT") != "" {
+		return 0
+	}
+	return 2 * time.Millisecond
+}()
+
 type connState struct {
 	lockWait int // seconds
 }
@@ -952,7 +963,9 @@ func (w *MyWorld) handle(issuer, target string, cs *connState, raw string) *Resu
 	if f := w.findFault(issuer, target, class); f != nil {
 		switch f.Kind {
 		case "err":
-			return finish(fmt.Sprintf("err:%d", f.Code), ErrResult(f.Code, "injected error"))
+			r := finish(fmt.Sprintf("err:%d", f.Code), ErrResult(f.Code, "injected error"))
+			time.Sleep(2 * time.Millisecond) // see Dial: error answers take time too
+			return r
 		case "hang":
 			st.Outcome = "hang"
 			w.Stmts = append(w.Stmts, st)
@@ -960,7 +973,9 @@ func (w *MyWorld) handle(issuer, target string, cs *connState, raw string) *Resu
 			w.hang(150 * time.Second)
 			return &Result{Drop: true}
 		case "cut-before":
-			return finish("cut-before", &Result{Drop: true})
+			r := finish("cut-before", &Result{Drop: true})
+			time.Sleep(dropLatency)
+			return r
 		case "cut-after":
 			if w.OnStatement != nil {
 				w.OnStatement(w, &st, h)
@@ -969,7 +984,9 @@ func (w *MyWorld) handle(issuer, target string, cs *connState, raw string) *Resu
 			if w.AfterStmt != nil {
 				w.AfterStmt(w, &st, h)
 			}
-			return finish("cut-after", &Result{Drop: true})
+			r := finish("cut-after", &Result{Drop: true})
+			time.Sleep(dropLatency)
+			return r
 		}
 	}
 	if w.OnStatement != nil {
@@ -1298,3 +1315,31 @@ func NewChannel(src string, running bool) *Channel {
 
 // SettleLocked is Settle for callers that already hold the world lock.
 func (w *MyWorld) SettleLocked() { w.settle() }
+
+// ---- set-up helpers for constructed histories (call with the world lock held or before the daemons run)
+
+// ResetData empties the host's transaction history.
+func (h *MyHost) ResetData() {
+	h.Executed, h.Binlog, h.binlogSet, h.Pending, h.NextGno = RefSet{}, nil, map[txnKey]bool{}, nil, 1
+	if h.Chan != nil {
+		h.Chan.Relay, h.Chan.relaySet = nil, map[txnKey]bool{}
+	}
+}
+
+// AddExecuted records t as executed (and binlogged) on the host.
+func (h *MyHost) AddExecuted(t Txn) {
+	gsAdd(h.Executed, t.UUID, t.Gno)
+	h.logTxn(t)
+	if t.UUID == h.UUID && t.Gno >= h.NextGno {
+		h.NextGno = t.Gno + 1
+	}
+}
+
+// AddRelay records t as received but not yet applied.
+func (h *MyHost) AddRelay(t Txn, recvAt time.Time) {
+	if h.Chan == nil || h.has(t) {
+		return
+	}
+	h.Chan.Relay = append(h.Chan.Relay, relayEntry{t, recvAt})
+	h.Chan.relaySet[t.key()] = true
+}
